@@ -3,7 +3,7 @@ import importlib
 
 # property -> (module, attribute, level, quick runs, thorough runs)
 TABLE = {
-    "C01": ("sim.scenarios.state", "C01", "exploration", 25000, 600000),
+    "C01": ("sim.scenarios.c01", "SCENARIO", "exploration", 25000, 600000),
     "C02": ("sim.scenarios.persist", "C02", "exploration", 20000, 500000),
     "C03": ("sim.scenarios.persist", "C03", "exploration", 20000, 500000),
     "C06": ("sim.scenarios.c06", "SCENARIO", "exploration", 30000, 800000),
